@@ -1,4 +1,5 @@
 import SqlObjVerif.Lemmas.Like
+import SqlObjVerif.Lemmas.LexXLike
 /-!
 # C17 — startswith / endswith / contains match their argument literally
 
@@ -83,3 +84,149 @@ theorem C17_like_literal_postgres_full_FALSE :
   decide
 
 end SqlObjVerif.Like
+
+/-! ## The TRANSLATED source (`vlib/extractors/pylex.py` → `Extracted/PyLex.lean`, semantics `Model/PyLex.lean`)
+
+RUNNING the translated `_quote_like_special`, `_LikeQuoted.__init__ / __add__ / __radd__ / __sqlrepr__`,
+`LIKE.__init__ / __sqlrepr__`, `STARTSWITH / ENDSWITH / CONTAINSSTRING` and `sqlrepr` (calling each other through
+`world P n`, see `Model/LexX.lean` for the assumed interface) gives exactly the hand model (`likeSpecial`, `likePattern`,
+`likeClause`) for every argument and all 7 dialects; the headline theorems restated about the translated source. -/
+namespace SqlObjVerif.LexX
+open SqlObjVerif.PyLex
+
+/-- `sqlbuilder._quote_like_special(s, db)` as translated = `likeSpecial` (the escape choice and the replace chain) -/
+theorem C17_translated_quote_like_special_eq_model (P : Ext) (n : Nat) (d : Lex.Dialect) (s : Lex.Str) :
+    quoteLikeSpecialX (world P n) s (.str (dbName d)) = .ret (.str (Like.likeSpecial d s)) := qls P n d s
+
+/-- `_LikeQuoted(a).__sqlrepr__(db)` (string branch) as translated, with the prefix / postfix the wrapper added:
+    `sqlrepr` → `unquote_str` → `_quote_like_special` → `"%s%s%s"` → `quote_str`, = the model's pattern assembly -/
+theorem C17_translated_LikeQuoted_eq_model (P : Ext) (n : Nat) (hup : UpperOK P.upper) (d : Lex.Dialect)
+    (op : Lex.LikeOp) (a : Lex.Str) :
+    likeQuotedReprX (world P (n + 3)) (likeQuotedObj (.str a) op.pre op.post) (.str (dbName d)) =
+      .ret (.str (Like.likePattern d op a)) := likeQuoted_str P n hup d a op.pre op.post
+
+/-- … the `SQLExpression` branch: quoted prefix / postfix around the escaped rendering of the expression, joined by the
+    dialect's concatenation (`CONCAT(…)`, ` + `, ` || `) -/
+theorem C17_translated_LikeQuoted_expr_eq_model (P : Ext) (n : Nat) (d : Lex.Dialect) (c : String)
+    (fs : List (String × Val)) (pre post r : Lex.Str) (hx : xIsSub P c "SQLExpression" = true)
+    (he : run (world P (n + 1)) Extracted.sqlrepr [.obj c fs, .str (dbName d)] = .ret (.str r)) :
+    likeQuotedReprX (world P (n + 2)) (likeQuotedObj (.obj c fs) pre post) (.str (dbName d)) =
+      .ret (.str (likeConcat d pre post r)) := likeQuoted_expr P n d c fs pre post r hx he
+
+/-- … anything else: TypeError -/
+theorem C17_translated_LikeQuoted_other_TypeError (P : Ext) (n : Nat) (i : Int) (pre post : Lex.Str) (db : Val) :
+    likeQuotedReprX (world P n) (likeQuotedObj (.int i) pre post) db = .exc .typeError := by
+  unfold likeQuotedReprX run Extracted.LikeQuoted_sqlrepr Extracted.LikeQuoted_sqlrepr_s0
+    Extracted.LikeQuoted_sqlrepr_s1 likeQuotedObj
+  pylw [xIsSub, resolve, Extracted.aliases, Extracted.bases, builtinTypes]
+
+/-- `_LikeQuoted.__add__` / `__radd__` as translated extend the postfix / prefix and return the object -/
+theorem C17_translated_LikeQuoted_add (I : Iface) (e : Val) (pre post s : Lex.Str) :
+    run I Extracted.LikeQuoted_add [likeQuotedObj e pre post, .str s] = .ret (likeQuotedObj e pre (post ++ s)) :=
+  lq_add I e pre post s
+
+theorem C17_translated_LikeQuoted_radd (I : Iface) (e : Val) (pre post s : Lex.Str) :
+    run I Extracted.LikeQuoted_radd [likeQuotedObj e pre post, .str s] = .ret (likeQuotedObj e (s ++ pre) post) :=
+  lq_radd I e pre post s
+
+/-- `LIKE(e, pre + _LikeQuoted(a) + post, escape=esc).__sqlrepr__(db)` as translated = `likeClause`, where `x` is
+    what the translated `sqlrepr` renders the left operand `e` to -/
+theorem C17_translated_LIKE_eq_model (P : Ext) (n : Nat) (hup : UpperOK P.upper) (d : Lex.Dialect) (e : Val)
+    (x a : Lex.Str) (op : Lex.LikeOp)
+    (he : run (world P (n + 4)) Extracted.sqlrepr [e, .str (dbName d)] = .ret (.str x)) :
+    likeReprX (world P (n + 5)) (likeObj e (likeQuotedObj (.str a) op.pre op.post) (.str op.esc)) (.str (dbName d)) =
+      .ret (.str (Like.likeClause d op x a)) := like_sqlrepr P n hup d e x a op.pre op.post op.esc he
+
+/-- `STARTSWITH` / `ENDSWITH` / `CONTAINSSTRING` as translated (the constructor calls run the translated `__init__`s,
+    `+` runs the translated `__add__` / `__radd__`) build exactly the object of the extracted wrapper constants -/
+theorem C17_translated_STARTSWITH_eq_model (P : Ext) (n : Nat) (e : Val) (a : Lex.Str) :
+    run (world P (n + 2)) Extracted.STARTSWITH [e, .str a] = .ret (wrapperObj Lex.Extracted.startswithOp e a) :=
+  startswith_run P n e a
+
+theorem C17_translated_ENDSWITH_eq_model (P : Ext) (n : Nat) (e : Val) (a : Lex.Str) :
+    run (world P (n + 2)) Extracted.ENDSWITH [e, .str a] = .ret (wrapperObj Lex.Extracted.endswithOp e a) :=
+  endswith_run P n e a
+
+theorem C17_translated_CONTAINSSTRING_eq_model (P : Ext) (n : Nat) (e : Val) (a : Lex.Str) :
+    run (world P (n + 2)) Extracted.CONTAINSSTRING [e, .str a] = .ret (wrapperObj Lex.Extracted.containsOp e a) :=
+  contains_run P n e a
+
+/-- end to end: wrapper call, then `sqlrepr` of the result = the model's clause -/
+theorem C17_translated_wrapper_clause_eq_model (P : Ext) (n : Nat) (hup : UpperOK P.upper) (d : Lex.Dialect)
+    (op : Lex.LikeOp) (prog : Block) (hw : wrapperOf op = some prog) (e : Val) (x a : Lex.Str)
+    (he : run (world P (n + 4)) Extracted.sqlrepr [e, .str (dbName d)] = .ret (.str x)) :
+    ∃ v, run (world P (n + 2)) prog [e, .str a] = .ret v ∧
+      sqlreprX (world P (n + 6)) v (.str (dbName d)) = .ret (.str (Like.likeClause d op x a)) :=
+  wrapper_sqlrepr P n hup d op prog hw e x a he
+
+/-- decode one literal with the reference lexer (nothing may follow) -/
+def decodeLit (d : Lex.Dialect) (t : Lex.Str) : Option Lex.Str :=
+  match Lex.lexString d t with
+  | some (p, []) => some p
+  | _ => none
+
+/-- what the server sees of `op(e, a)` as built and rendered by the TRANSLATED code: the pattern operand and the
+    escape operand of the LIKE object, each rendered by the translated `sqlrepr` and decoded by the reference lexer -/
+def TranslatedSees (P : Ext) (n : Nat) (d : Lex.Dialect) (prog : Block) (e : Val) (a p esc : Lex.Str) : Prop :=
+  ∃ pat escv pt et, run (world P (n + 2)) prog [e, .str a] = .ret (likeObj e pat escv) ∧
+    sqlreprX (world P (n + 4)) pat (.str (dbName d)) = .ret (.str pt) ∧
+    sqlreprX (world P (n + 4)) escv (.str (dbName d)) = .ret (.str et) ∧
+    decodeLit d pt = some p ∧ decodeLit d et = some esc
+
+theorem translated_sees (P : Ext) (n : Nat) (hup : UpperOK P.upper) (d : Lex.Dialect) (op : Lex.LikeOp) (prog : Block)
+    (hw : wrapperOf op = some prog) (e : Val) (a p : Lex.Str)
+    (hp : Like.decodedPattern d op a = some p) (hesc : Like.decodedEscape d op = some [92]) :
+    TranslatedSees P n d prog e a p [92] := by
+  refine ⟨likeQuotedObj (.str a) op.pre op.post, .str op.esc, _, _, ?_, sqlrepr_likeQuoted P n hup d a op.pre op.post,
+    sqlrepr_str P (n + 2) d op.esc, hp, hesc⟩
+  unfold wrapperOf at hw
+  split at hw
+  · cases hw; rename_i h; subst h; exact startswith_run P n e a
+  · split at hw
+    · cases hw; rename_i h; subst h; exact endswith_run P n e a
+    · split at hw
+      · cases hw; rename_i h; subst h; exact contains_run P n e a
+      · cases hw
+
+/-- startswith, about the translated source: the LIKE object the translated `STARTSWITH(e, a)` builds, rendered by the
+    translated `sqlrepr` and decoded by the reference lexer, matches exactly the rows that start with `a` -/
+theorem C17_translated_startswith_literal_partial (P : Ext) (n : Nat) (hup : UpperOK P.upper) (d : Lex.Dialect)
+    (eqv : Nat → Nat → Bool) (e : Val) (a s : Lex.Str) (ha : Like.likeAdm d a = true) :
+    ∃ p, TranslatedSees P n d Extracted.STARTSWITH e a p [92] ∧ Like.likeMatch eqv 92 p s = Like.prefixMod eqv a s := by
+  obtain ⟨p, hp, hesc, hm⟩ := Like.C17_startswith_literal_partial d eqv a s ha
+  exact ⟨p, translated_sees P n hup d _ _ rfl e a p hp hesc, hm⟩
+
+theorem C17_translated_endswith_literal_partial (P : Ext) (n : Nat) (hup : UpperOK P.upper) (d : Lex.Dialect)
+    (eqv : Nat → Nat → Bool) (e : Val) (a s : Lex.Str) (ha : Like.likeAdm d a = true) :
+    ∃ p, TranslatedSees P n d Extracted.ENDSWITH e a p [92] ∧ Like.likeMatch eqv 92 p s = Like.suffixMod eqv a s := by
+  obtain ⟨p, hp, hesc, hm⟩ := Like.C17_endswith_literal_partial d eqv a s ha
+  exact ⟨p, translated_sees P n hup d _ _ rfl e a p hp hesc, hm⟩
+
+theorem C17_translated_contains_literal_partial (P : Ext) (n : Nat) (hup : UpperOK P.upper) (d : Lex.Dialect)
+    (eqv : Nat → Nat → Bool) (e : Val) (a s : Lex.Str) (ha : Like.likeAdm d a = true) :
+    ∃ p, TranslatedSees P n d Extracted.CONTAINSSTRING e a p [92] ∧
+      Like.likeMatch eqv 92 p s = Like.containsMod eqv a s := by
+  obtain ⟨p, hp, hesc, hm⟩ := Like.C17_contains_literal_partial d eqv a s ha
+  exact ⟨p, translated_sees P n hup d _ _ rfl e a p hp hesc, hm⟩
+
+/-- the full-strength statement is FALSE of the translated source too (mysql, argument LF) -/
+theorem C17_translated_startswith_literal_full_FALSE :
+    ¬ (∀ (P : Ext) (n : Nat) (d : Lex.Dialect) (e : Val) (a s p : Lex.Str), UpperOK P.upper →
+        TranslatedSees P n d Extracted.STARTSWITH e a p [92] →
+        Like.likeMatch Like.eqvExact 92 p s = Like.prefixMod Like.eqvExact a s) := by
+  intro h
+  have := h ⟨asciiUpper, fun _ => false, fun _ _ _ => .stuck, fun _ => .stuck, fun _ => .stuck⟩ 0 .mysql .none
+    [10] [110] [92, 110, 37] asciiUpper_ok
+    (translated_sees _ 0 asciiUpper_ok .mysql Lex.Extracted.startswithOp _ rfl .none [10] _ (by decide) (by decide))
+  revert this
+  decide
+
+-- non-vacuity: the translated wrapper + `sqlrepr` RUN (kernel evaluation): ('a' LIKE (E'\\%''%') ESCAPE E'\\')
+example : sqlreprX (world ⟨asciiUpper, fun _ => false, fun _ _ _ => .stuck, fun _ => .stuck, fun _ => .stuck⟩ 6)
+    (wrapperObj Lex.Extracted.startswithOp (.str [97]) [37, 39]) (.str (dbName .postgres)) =
+    .ret (.str [40, 39, 97, 39, 32, 76, 73, 75, 69, 32, 40, 69, 39, 92, 92, 37, 39, 39, 37, 39, 41, 32, 69, 83, 67, 65,
+      80, 69, 32, 69, 39, 92, 92, 39, 41]) := by rfl
+example : run (world ⟨asciiUpper, fun _ => false, fun _ _ _ => .stuck, fun _ => .stuck, fun _ => .stuck⟩ 2)
+    Extracted.CONTAINSSTRING [.str [97], .str [37]] = .ret (wrapperObj Lex.Extracted.containsOp (.str [97]) [37]) := by rfl
+
+end SqlObjVerif.LexX
